@@ -190,6 +190,13 @@ def place_raises(rng: random.Random, prog: dict, n: int) -> None:
                             {'op': 'raise', 'marker': marker})
 
 
+def place_busy(rng: random.Random, prog: dict, n: int) -> None:
+    """Mark up to n nodes as long-running steps (simulated seconds)."""
+    nodes = [x for x, p, f in walk(prog)]
+    for x in rng.sample(nodes, min(n, len(nodes))):
+        x['busy'] = rng.choice([90, 600, 7200])
+
+
 def place_await_cancelled(rng: random.Random, prog: dict) -> None:
     """Turn one explicit cancel into cancel + await of the dead future."""
     cands = []
